@@ -747,3 +747,30 @@ def shrink(ctx, case):
             break
         stream, cuts, best = hit
     return best
+
+
+# ---- T1X: the numerals of this property's models are tied to the current tree.  extract/consts2*.c + a source scan
+# rewrite lean/CoapVerif/Generated/Consts2.lean on every check; Props/C05Consts.lean proves `<model numeral> =
+# Generated.C2.<name>` (design/T1.md).  A changed macro / struct size / literal breaks one of these named obligations.
+LEAN_MODULES = list(LEAN_MODULES) + ["CoapVerif.Props.C05Consts"]
+REQUIRED_THEOREMS = list(REQUIRED_THEOREMS) + [
+    "stream_rhCap_matches_code",
+    "stream_maxRx_matches_code",
+    "stream_rxBuf_matches_code",
+    "stream_maxHdr_matches_code",
+    "stream_header_fits_matches_code",
+    "ws_httpCap_matches_code",
+    "ws_fsCap_matches_code",
+    "ws_rxBuf_matches_code",
+    "ws_drainBuf_matches_code",
+    "ws_drainCount_matches_code",
+    "ws_maxLine_matches_code",
+    "ws_maxFrame_matches_code",
+]
+TRUSTED_BASE = list(TRUSTED_BASE) + ["T1 extractors extract/consts2.c, consts2_net.c, consts2_opt.c and the source scan vlib/tables.py scan_consts2 (Generated/Consts2.lean)"]
+_t1x_prev_extract = globals().get("extract")
+
+
+def extract(ctx):
+    from vlib import tables
+    return (_t1x_prev_extract(ctx) if _t1x_prev_extract else []) + tables.extract_consts2()
